@@ -84,6 +84,11 @@ func (o Op) Line() string {
 	return "?"
 }
 
+// Line0 is the configuration part of the oracle line.
+func (g Cfg) Line0() string {
+	return fmt.Sprintf("%x %x %x %x %x %x %x %x %x %x %x", g.Epoch, g.Low, g.Med, g.High, g.Cooldown, g.EvictThr, g.EvictInt, g.TP, g.Hayabusa, g.Donation, g.MBP)
+}
+
 func (c *Case) Line() string {
 	var b strings.Builder
 	g := c.Cfg
